@@ -245,7 +245,7 @@ Proof.
       { cbn [length] in H. lia. }
       exists rest'. split.
       * rewrite E. cbn [map rev app]. rewrite <- app_assoc. reflexivity.
-      * rewrite L. cbn [length]. lia.
+      * rewrite L. cbn [app length]. lia.
 Qed.
 
 Lemma cstring_prefix : forall s rest, nul_free s -> cstring (map Some s ++ Some 0 :: rest) = Some s.
@@ -265,4 +265,425 @@ Proof.
   destruct rest' as [|x rest']; [cbn in L; unfold zlen in L; lia|].
   cbn [zwrite]. rewrite app_nil_r, rev_append_rev, rev_involutive.
   rewrite cstring_prefix by (apply escape_nul_free; exact H). reflexivity.
+Qed.
+
+(* ==================================================================================== *)
+(* C. the bounded two-pass renderer equals the ideal renderer                            *)
+(* ==================================================================================== *)
+Definition blitz (buf : cells) (p : Z) (s : bstr) : cells :=
+  firstn (Z.to_nat p) buf ++ map Some s ++ skipn (Z.to_nat p + length s) buf.
+
+Lemma wr_at_ok : forall n buf s, (n + length s <= length buf)%nat ->
+  wr_at n buf s = Some (firstn n buf ++ map Some s ++ skipn (n + length s) buf).
+Proof.
+  induction n as [|n IH]; intros buf s H.
+  - cbn [wr_at firstn app plus]. apply zwrite_ok. lia.
+  - destruct buf as [|x buf]; [cbn in H; lia|].
+    cbn [wr_at firstn app plus skipn]. rewrite IH by (cbn in H; lia). reflexivity.
+Qed.
+
+Lemma wr_bytes_ok : forall buf p s, 0 <= p -> p + zlen s <= zlen buf ->
+  wr_bytes buf p s = Some (blitz buf p s).
+Proof.
+  intros buf p s H1 H2. unfold wr_bytes, blitz.
+  destruct (p <? 0) eqn:E; [lia|].
+  apply wr_at_ok. unfold zlen in H2. lia.
+Qed.
+
+Lemma blitz_length : forall buf p s, 0 <= p -> p + zlen s <= zlen buf -> zlen (blitz buf p s) = zlen buf.
+Proof.
+  intros buf p s H1 H2. unfold blitz, zlen in *.
+  rewrite !app_length, map_length, firstn_length, skipn_length. lia.
+Qed.
+
+Lemma skipn_skipn' : forall A x y (l : list A), skipn x (skipn y l) = skipn (y + x) l.
+Proof.
+  intros A x y. induction y as [|y IH]; intro l; [reflexivity|].
+  destruct l as [|a l]; [cbn; destruct x; reflexivity|]. cbn [skipn plus]. apply IH.
+Qed.
+
+Lemma blitz_blitz : forall buf p a c d, 0 <= p -> p + zlen a + zlen d <= zlen buf ->
+  (length c <= length d)%nat ->
+  blitz (blitz buf p (a ++ c)) (p + zlen a) d = blitz buf p (a ++ d).
+Proof.
+  intros buf p a c d H1 H2 H3. unfold blitz, zlen in *.
+  set (n := Z.to_nat p).
+  replace (Z.to_nat (p + Z.of_nat (length a))) with (n + length a)%nat by lia.
+  assert (Hn : length (firstn n buf) = n) by (rewrite firstn_length; lia).
+  rewrite !map_app.
+  (* the prefix *)
+  replace (firstn (n + length a) (firstn n buf ++ (map Some a ++ map Some c) ++ skipn (n + length (a ++ c)) buf))
+    with (firstn n buf ++ map Some a).
+  2:{ rewrite <- Hn at 2. rewrite firstn_app_2. f_equal.
+      rewrite <- app_assoc.
+      replace (length a) with (length (map (@Some Z) a) + 0)%nat at 1 by (rewrite map_length; lia).
+      rewrite firstn_app_2, firstn_O, app_nil_r. reflexivity. }
+  (* the suffix *)
+  replace (skipn (n + length a + length d) (firstn n buf ++ (map Some a ++ map Some c) ++ skipn (n + length (a ++ c)) buf))
+    with (skipn (n + length (a ++ d)) buf).
+  2:{ rewrite !app_length.
+      rewrite skipn_app, Hn.
+      rewrite (skipn_all2 (firstn n buf)) by lia. cbn [app].
+      rewrite skipn_app, app_length, !map_length.
+      rewrite (skipn_all2 (map Some a ++ map Some c)) by (rewrite app_length, !map_length; lia). cbn [app].
+      rewrite skipn_skipn'. f_equal. lia. }
+  rewrite <- !app_assoc. reflexivity.
+Qed.
+
+Definition bnd (buf : cells) (ptr : option Z) (buflen : Z) : Prop :=
+  0 <= buflen < 18446744073709551616 /\
+  (buflen = 0 \/ exists p, ptr = Some p /\ 0 <= p /\ p + buflen <= zlen buf).
+
+Definition sn_buf (buf0 : cells) (ptr0 : option Z) (buflen : Z) (a : bstr) : cells :=
+  if buflen =? 0 then buf0
+  else match ptr0 with
+       | Some p => blitz buf0 p (firstn (Z.to_nat (Z.min (buflen - 1) (zlen a))) a ++ [0])
+       | None => buf0
+       end.
+
+Lemma firstn_zlen_le : forall (a : bstr) k, 0 <= k -> zlen (firstn (Z.to_nat k) a) = Z.min k (zlen a).
+Proof. intros. unfold zlen. rewrite firstn_length. lia. Qed.
+
+Lemma snprintf_ok : forall buf0 ptr0 buflen a, bnd buf0 ptr0 buflen ->
+  snprintf buf0 ptr0 buflen a = ROk (sn_buf buf0 ptr0 buflen a, zlen a).
+Proof.
+  intros buf0 ptr0 buflen a (B1 & B2). unfold snprintf, sn_buf.
+  destruct (buflen =? 0) eqn:E; [reflexivity|].
+  destruct B2 as [B2|(p & -> & P1 & P2)]; [lia|].
+  pose proof (zlen_nonneg _ a).
+  rewrite wr_bytes_ok; [reflexivity|lia|].
+  rewrite zlen_app, firstn_zlen_le by lia. rewrite zlen_cons, zlen_nil. lia.
+Qed.
+
+Lemma sn_buf_length : forall buf0 ptr0 buflen a, bnd buf0 ptr0 buflen ->
+  zlen (sn_buf buf0 ptr0 buflen a) = zlen buf0.
+Proof.
+  intros buf0 ptr0 buflen a (B1 & B2). unfold sn_buf.
+  destruct (buflen =? 0) eqn:E; [reflexivity|].
+  destruct B2 as [B2|(p & -> & P1 & P2)]; [lia|].
+  pose proof (zlen_nonneg _ a).
+  apply blitz_length; [lia|].
+  rewrite zlen_app, firstn_zlen_le by lia. rewrite zlen_cons, zlen_nil. lia.
+Qed.
+
+(* the renderer's state after the strings emitted so far concatenate to a *)
+Definition st_after (buf0 : cells) (ptr0 : option Z) (buflen : Z) (a : bstr) : rstate :=
+  if buflen <=? zlen a then mkR (sn_buf buf0 ptr0 buflen a) None 0 (zlen a)
+  else mkR (sn_buf buf0 ptr0 buflen a) (option_map (fun p => p + zlen a) ptr0) (buflen - zlen a) (zlen a).
+
+Lemma st_after_written : forall b p l a, r_written (st_after b p l a) = zlen a.
+Proof. intros. unfold st_after. destruct (l <=? zlen a); reflexivity. Qed.
+Lemma st_after_buf : forall b p l a, r_buf (st_after b p l a) = sn_buf b p l a.
+Proof. intros. unfold st_after. destruct (l <=? zlen a); reflexivity. Qed.
+
+Lemma st_after_bnd : forall buf0 ptr0 buflen a, bnd buf0 ptr0 buflen ->
+  bnd (r_buf (st_after buf0 ptr0 buflen a)) (r_ptr (st_after buf0 ptr0 buflen a)) (r_left (st_after buf0 ptr0 buflen a)).
+Proof.
+  intros buf0 ptr0 buflen a B. pose proof (sn_buf_length buf0 ptr0 buflen a B) as L.
+  destruct B as (B1 & B2). pose proof (zlen_nonneg _ a).
+  unfold st_after. destruct (buflen <=? zlen a) eqn:E; cbn [r_buf r_ptr r_left].
+  - split; [lia|left; reflexivity].
+  - split; [lia|]. right. destruct B2 as [B2|(p & -> & P1 & P2)]; [lia|].
+    exists (p + zlen a). cbn [option_map]. repeat split; lia.
+Qed.
+
+Lemma emit_first : forall buf0 ptr0 buflen s, bnd buf0 ptr0 buflen ->
+  emit buflen (mkR buf0 ptr0 buflen 0) s = ROk (st_after buf0 ptr0 buflen s).
+Proof.
+  intros buf0 ptr0 buflen s B. unfold emit. cbn [r_buf r_ptr r_left].
+  rewrite snprintf_ok by exact B. unfold render_update, st_after. cbn [r_written r_ptr r_left].
+  rewrite Z.add_0_l. destruct B as (B1 & _). pose proof (zlen_nonneg _ s).
+  destruct (buflen <=? zlen s) eqn:E; [reflexivity|].
+  rewrite Z.mod_small by lia. reflexivity.
+Qed.
+
+Lemma firstn_app_min : forall (a s : bstr) k, (length a <= k)%nat ->
+  firstn k (a ++ s) = a ++ firstn (k - length a) s.
+Proof.
+  intros a s k H. rewrite firstn_app. rewrite firstn_all2 by lia. reflexivity.
+Qed.
+
+Lemma emit_next : forall buf0 ptr0 buflen a s, bnd buf0 ptr0 buflen ->
+  emit buflen (st_after buf0 ptr0 buflen a) s = ROk (st_after buf0 ptr0 buflen (a ++ s)).
+Proof.
+  intros buf0 ptr0 buflen a s B.
+  pose proof (st_after_bnd buf0 ptr0 buflen a B) as B'.
+  unfold emit. rewrite snprintf_ok by exact B'. clear B'.
+  destruct B as (B1 & B2). pose proof (zlen_nonneg _ a). pose proof (zlen_nonneg _ s).
+  unfold render_update.
+  destruct (buflen <=? zlen a) eqn:E.
+  - (* exhausted: nothing is written any more *)
+    assert (S1 : st_after buf0 ptr0 buflen a = mkR (sn_buf buf0 ptr0 buflen a) None 0 (zlen a))
+      by (unfold st_after; rewrite E; reflexivity).
+    rewrite S1. cbn [r_buf r_ptr r_left r_written].
+    unfold st_after. rewrite zlen_app.
+    destruct (buflen <=? zlen a + zlen s) eqn:E2; [|lia].
+    do 2 f_equal.
+    unfold sn_buf at 1. cbn [Z.eqb].
+    unfold sn_buf. destruct (buflen =? 0) eqn:E3; [reflexivity|].
+    destruct ptr0 as [p|]; [|reflexivity].
+    f_equal. f_equal.
+    rewrite zlen_app.
+    replace (Z.min (buflen - 1) (zlen a + zlen s)) with (buflen - 1) by lia.
+    replace (Z.min (buflen - 1) (zlen a)) with (buflen - 1) by lia.
+    rewrite firstn_app.
+    replace (Z.to_nat (buflen - 1) - length a)%nat with 0%nat by (unfold zlen in *; lia).
+    rewrite firstn_O, app_nil_r. reflexivity.
+  - destruct B2 as [B2|(p & -> & P1 & P2)]; [lia|].
+    assert (S1 : st_after buf0 (Some p) buflen a
+                 = mkR (sn_buf buf0 (Some p) buflen a) (Some (p + zlen a)) (buflen - zlen a) (zlen a))
+      by (unfold st_after; rewrite E; reflexivity).
+    rewrite S1. cbn [r_buf r_ptr r_left r_written].
+    assert (Hbuf : sn_buf (sn_buf buf0 (Some p) buflen a) (Some (p + zlen a)) (buflen - zlen a) s
+                   = sn_buf buf0 (Some p) buflen (a ++ s)).
+    { unfold sn_buf. destruct (buflen =? 0) eqn:E3; [lia|].
+      destruct (buflen - zlen a =? 0) eqn:E4; [lia|].
+      replace (Z.min (buflen - 1) (zlen a)) with (zlen a) by lia.
+      replace (firstn (Z.to_nat (zlen a)) a) with a
+        by (symmetry; apply firstn_all2; unfold zlen; lia).
+      rewrite blitz_blitz.
+      - f_equal. rewrite zlen_app.
+        rewrite firstn_app_min by (unfold zlen in *; lia).
+        rewrite <- app_assoc. f_equal. f_equal. f_equal. unfold zlen in *. lia.
+      - lia.
+      - rewrite zlen_app, firstn_zlen_le by lia. rewrite zlen_cons, zlen_nil. lia.
+      - rewrite app_length. cbn [length]. lia. }
+    rewrite Hbuf.
+    unfold st_after. rewrite zlen_app.
+    destruct (buflen <=? zlen a + zlen s) eqn:E2; [reflexivity|].
+    rewrite Z.mod_small by lia. cbn [option_map].
+    f_equal. f_equal; [f_equal; lia|lia].
+Qed.
+
+Lemma st_after_done : forall buf0 ptr0 buflen a, bnd buf0 ptr0 buflen ->
+  ROk (r_buf (st_after buf0 ptr0 buflen a), r_written (st_after buf0 ptr0 buflen a))
+  = snprintf buf0 ptr0 buflen a.
+Proof.
+  intros. rewrite snprintf_ok by assumption. rewrite st_after_buf, st_after_written. reflexivity.
+Qed.
+
+(* induction over trees with the hypothesis for every child *)
+Fixpoint tree_ind2 (P : tree -> Prop) (HU : P Unk) (HT : forall s, P (Text s))
+  (HG : forall name a cs, Forall P cs -> P (Tag name a cs)) (t : tree) {struct t} : P t :=
+  match t with
+  | Unk => HU
+  | Text s => HT s
+  | Tag name a cs =>
+      HG name a cs ((fix go (l : list tree) : Forall P l :=
+                       match l with
+                       | [] => Forall_nil P
+                       | x :: r => Forall_cons x (tree_ind2 P HU HT HG x) (go r)
+                       end) cs)
+  end.
+
+(* what the renderer needs of a tree: every node is typed, text and attribute values are C strings,
+   and every key enumerated by the iterator is found again by hash_get (true of every table the API
+   builds, see attrs_built_found below) *)
+Definition attrs_renderable (a : attrs) : Prop :=
+  match a with
+  | None => True
+  | Some h => forall k, In k (hash_keys h) -> exists v, hash_get h k = Some v /\ nul_free v
+  end.
+
+Inductive renderable : tree -> Prop :=
+| rn_text : forall s, nul_free s -> renderable (Text s)
+| rn_tag : forall name a cs, attrs_renderable a -> Forall renderable cs -> renderable (Tag name a cs).
+
+Definition render_children (c : pctx) := render_list (render_rec c).
+
+Lemma render_rec_tag : forall c name a cs buf ptr buflen,
+  render_rec c (Tag name a cs) buf ptr buflen =
+  rbind (emit buflen (mkR buf ptr buflen 0) (format fmt_open [name])) (fun st1 =>
+  rbind (match a with
+         | Some h => if 0 <? hash_num_keys h then render_attrs c h (hash_keys h) buflen st1 else ROk st1
+         | None => ROk st1
+         end) (fun st2 =>
+  match cs with
+  | [] => rbind (emit buflen st2 fmt_empty) rdone
+  | _ :: _ =>
+      rbind (emit buflen st2 fmt_gt) (fun st3 =>
+      rbind (render_children (child_ctx a) cs buflen st3) (fun st4 =>
+      rbind (emit buflen st4 (format fmt_close [name])) rdone))
+  end)).
+Proof.
+  intros. destruct cs; reflexivity.
+Qed.
+
+Lemma render_children_cons : forall c ch r buflen st,
+  render_children c (ch :: r) buflen st =
+  match render_rec c ch (r_buf st) (r_ptr st) (r_left st) with
+  | ROk (b, ret) => render_children c r buflen (render_update st buflen ret b)
+  | RErr e => RErr e | ROOB => ROOB | RCrash => RCrash | RUninit => RUninit
+  end.
+Proof. reflexivity. Qed.
+
+Lemma render_attrs_ok : forall c h buf0 ptr0 buflen keys acc,
+  bnd buf0 ptr0 buflen ->
+  (forall k, In k keys -> exists v, hash_get h k = Some v /\ nul_free v) ->
+  render_attrs c h keys buflen (st_after buf0 ptr0 buflen acc)
+  = ROk (st_after buf0 ptr0 buflen (acc ++ flat_map (attr_chunk c h) keys)).
+Proof.
+  intros c h buf0 ptr0 buflen keys. induction keys as [|k r IH]; intros acc B H.
+  - cbn [render_attrs flat_map]. rewrite app_nil_r. reflexivity.
+  - cbn [render_attrs flat_map]. unfold attr_chunk at 1.
+    destruct (H k (or_introl eq_refl)) as (v & -> & NV).
+    destruct (elide_xmlns c k v).
+    + cbn [app]. apply IH; [exact B|]. intros k' Hk. apply H. right. exact Hk.
+    + unfold emit_escaped. rewrite escape_xml_ok by exact NV.
+      rewrite emit_next by exact B. cbn [rbind app].
+      rewrite IH; [|exact B|intros k' Hk; apply H; right; exact Hk].
+      rewrite <- app_assoc. reflexivity.
+Qed.
+
+Lemma render_children_ok : forall c buf0 ptr0 buflen cs acc,
+  bnd buf0 ptr0 buflen ->
+  Forall (fun t => forall c buf ptr buflen, renderable t -> bnd buf ptr buflen ->
+                   render_rec c t buf ptr buflen = snprintf buf ptr buflen (render c t)) cs ->
+  Forall renderable cs ->
+  render_children c cs buflen (st_after buf0 ptr0 buflen acc)
+  = ROk (st_after buf0 ptr0 buflen (acc ++ flat_map (render c) cs)).
+Proof.
+  intros c buf0 ptr0 buflen cs. induction cs as [|ch r IH]; intros acc B HI HR.
+  - cbn [flat_map]. rewrite app_nil_r. reflexivity.
+  - inversion HI as [|? ? I1 I2]; subst. inversion HR as [|? ? R1 R2]; subst.
+    rewrite render_children_cons. cbn [flat_map].
+    rewrite I1 by (auto using st_after_bnd).
+    pose proof (emit_next buf0 ptr0 buflen acc (render c ch) B) as E.
+    unfold emit in E.
+    destruct (snprintf (r_buf (st_after buf0 ptr0 buflen acc)) (r_ptr (st_after buf0 ptr0 buflen acc))
+                (r_left (st_after buf0 ptr0 buflen acc)) (render c ch)) as [[b ret]| | | |]; try discriminate.
+    injection E as E. rewrite E.
+    rewrite IH by assumption. rewrite <- app_assoc. reflexivity.
+Qed.
+
+Lemma render_rec_is_snprintf : forall t c buf ptr buflen,
+  renderable t -> bnd buf ptr buflen ->
+  render_rec c t buf ptr buflen = snprintf buf ptr buflen (render c t).
+Proof.
+  induction t as [|s|name a cs IH] using tree_ind2; intros c buf ptr buflen R B.
+  - inversion R.
+  - inversion R as [s' NS|]; subst.
+    cbn [render_rec render]. unfold emit_escaped. rewrite escape_xml_ok by exact NS.
+    cbn [app]. rewrite emit_first by exact B. cbn [rbind].
+    apply st_after_done. exact B.
+  - inversion R as [|name' a' cs' RA RC]; subst.
+    rewrite render_rec_tag. rewrite emit_first by exact B. cbn [rbind].
+    cbn [render].
+    set (a0 := format fmt_open [name]).
+    set (ach := match a with Some h => flat_map (attr_chunk c h) (hash_keys h) | None => [] end).
+    assert (EA : (match a with
+                  | Some h => if 0 <? hash_num_keys h
+                              then render_attrs c h (hash_keys h) buflen (st_after buf ptr buflen a0)
+                              else ROk (st_after buf ptr buflen a0)
+                  | None => ROk (st_after buf ptr buflen a0)
+                  end) = ROk (st_after buf ptr buflen (a0 ++ ach))).
+    { subst ach. destruct a as [h|]; [|rewrite app_nil_r; reflexivity].
+      destruct (0 <? hash_num_keys h) eqn:E.
+      - apply render_attrs_ok; [exact B|exact RA].
+      - unfold hash_num_keys, hash_keys in *.
+        destruct (hash_items h) as [|x l]; [cbn [map flat_map]; rewrite app_nil_r; reflexivity|].
+        rewrite zlen_cons in E. pose proof (zlen_nonneg _ l). lia. }
+    rewrite EA. cbn [rbind].
+    destruct cs as [|ch cs'].
+    + rewrite emit_next by exact B. cbn [rbind]. unfold rdone.
+      rewrite st_after_done by exact B. rewrite <- app_assoc. reflexivity.
+    + rewrite emit_next by exact B. cbn [rbind].
+      rewrite render_children_ok by assumption. cbn [rbind].
+      rewrite emit_next by exact B. cbn [rbind]. unfold rdone.
+      rewrite st_after_done by exact B. rewrite <- !app_assoc. reflexivity.
+Qed.
+
+Lemma init_buf_range : 0 < stanza_init_buf < 2147483648.
+Proof. split; reflexivity. Qed.
+
+Lemma zlen_repeat : forall A (x : A) n, zlen (repeat x n) = Z.of_nat n.
+Proof. intros. unfold zlen. rewrite repeat_length. reflexivity. Qed.
+
+Lemma wr_last_keeps : forall (pre : cells) x tl p,
+  zlen pre <= p < zlen (pre ++ x :: tl) -> (p = zlen pre -> x = Some 0) ->
+  exists tl', wr_bytes (pre ++ x :: tl) p [0] = Some (pre ++ x :: tl') /\ length tl' = length tl.
+Proof.
+  intros pre x tl p H1 H2. pose proof (zlen_nonneg _ pre).
+  rewrite wr_bytes_ok by (rewrite ?zlen_cons, ?zlen_nil; lia).
+  unfold blitz. cbn [map length].
+  rewrite zlen_app, zlen_cons in H1. unfold zlen in *.
+  destruct (Z.eq_dec p (Z.of_nat (length pre))) as [E|E].
+  - exists tl. split; [|reflexivity]. rewrite (H2 E).
+    replace (Z.to_nat p) with (length pre + 0)%nat by lia.
+    rewrite firstn_app_2, firstn_O, app_nil_r.
+    rewrite skipn_app. rewrite skipn_all2 by lia.
+    replace (length pre + 0 + 1 - length pre)%nat with 1%nat by lia. reflexivity.
+  - set (k := (Z.to_nat p - length pre - 1)%nat).
+    exists (firstn k tl ++ Some 0 :: skipn (S k) tl). split.
+    + replace (Z.to_nat p) with (length pre + S k)%nat by lia.
+      rewrite firstn_app_2. cbn [firstn].
+      rewrite skipn_app. rewrite skipn_all2 by lia.
+      replace (length pre + S k + 1 - length pre)%nat with (S (S k)) by lia.
+      cbn [skipn app]. rewrite <- !app_assoc. reflexivity.
+    + rewrite app_length. cbn [length]. rewrite firstn_length, skipn_length. lia.
+Qed.
+
+Lemma to_text_correct : forall c t, renderable t -> zlen (render c t) < 2147483648 ->
+  exists rest,
+    to_text c t = TOk (map Some (render c t) ++ Some 0 :: rest) (zlen (render c t)) /\
+    zlen rest = Z.max stanza_init_buf (zlen (render c t) + 1) - (zlen (render c t) + 1).
+Proof.
+  intros c t R HL. pose proof init_buf_range as HI.
+  set (r := render c t) in *. pose proof (zlen_nonneg _ r) as Hr.
+  unfold to_text.
+  assert (B1 : bnd (repeat None (Z.to_nat stanza_init_buf)) (Some 0) stanza_init_buf).
+  { split; [lia|]. right. exists 0. rewrite zlen_repeat. repeat split; lia. }
+  rewrite render_rec_is_snprintf by assumption. fold r.
+  rewrite snprintf_ok by exact B1.
+  destruct (stanza_init_buf - 1 <? zlen r) eqn:E.
+  - (* second pass with exactly zlen r + 1 bytes *)
+    set (b1 := sn_buf (repeat None (Z.to_nat stanza_init_buf)) (Some 0) stanza_init_buf r).
+    assert (L2 : zlen (realloc b1 (zlen r + 1)) = zlen r + 1).
+    { unfold realloc, zlen. rewrite app_length, firstn_length, repeat_length.
+      assert (zlen b1 = stanza_init_buf).
+      { unfold b1. rewrite sn_buf_length by exact B1. rewrite zlen_repeat. lia. }
+      unfold zlen in *. lia. }
+    assert (B2 : bnd (realloc b1 (zlen r + 1)) (Some 0) (zlen r + 1)).
+    { split; [lia|]. right. exists 0. repeat split; lia. }
+    rewrite render_rec_is_snprintf by assumption. fold r.
+    rewrite snprintf_ok by exact B2.
+    destruct (zlen r + 1 - 1 <? zlen r) eqn:E2; [lia|].
+    exists []. split; [|rewrite zlen_nil; lia].
+    unfold sn_buf. destruct (zlen r + 1 =? 0) eqn:E3; [lia|].
+    replace (Z.min (zlen r + 1 - 1) (zlen r)) with (zlen r) by lia.
+    rewrite (firstn_all2 r) by (unfold zlen; lia).
+    assert (EB : blitz (realloc b1 (zlen r + 1)) 0 (r ++ [0]) = map Some r ++ [Some 0]).
+    { unfold blitz. cbn [Z.to_nat firstn app plus].
+      rewrite skipn_all2 by (rewrite app_length; cbn [length]; unfold zlen in *; lia).
+      rewrite app_nil_r, map_app. reflexivity. }
+    rewrite EB. unfold tt_finish.
+    destruct (wr_last_keeps (map Some r) (Some 0) [] (zlen r + 1 - 1)) as (tl' & W & LT).
+    { rewrite zlen_map, zlen_app, zlen_map, zlen_cons, zlen_nil. lia. }
+    { reflexivity. }
+    rewrite W. destruct tl'; [reflexivity|discriminate].
+  - (* the first buffer was large enough *)
+    unfold sn_buf. destruct (stanza_init_buf =? 0) eqn:E3; [lia|].
+    replace (Z.min (stanza_init_buf - 1) (zlen r)) with (zlen r) by lia.
+    rewrite (firstn_all2 r) by (unfold zlen; lia).
+    unfold blitz. cbn [Z.to_nat firstn app plus]. rewrite map_app. rewrite <- app_assoc. cbn [map app].
+    set (tl := skipn (length (r ++ [0])) (repeat None (Z.to_nat stanza_init_buf))).
+    assert (LT : zlen tl = stanza_init_buf - (zlen r + 1)).
+    { unfold tl, zlen. rewrite skipn_length, repeat_length, app_length. cbn [length]. unfold zlen in *. lia. }
+    unfold tt_finish.
+    destruct (wr_last_keeps (map Some r) (Some 0) tl (stanza_init_buf - 1)) as (tl' & W & LT').
+    { rewrite zlen_map, zlen_app, zlen_map, zlen_cons. pose proof (zlen_nonneg _ tl). lia. }
+    { reflexivity. }
+    rewrite W. exists tl'. split; [reflexivity|].
+    unfold zlen in *. lia.
+Qed.
+
+(* what the caller sees: the C string in the returned allocation is the full rendering *)
+Lemma to_text_cstring : forall c t buf len, renderable t -> zlen (render c t) < 2147483648 ->
+  nul_free (render c t) -> to_text c t = TOk buf len ->
+  cstring buf = Some (render c t) /\ len = zlen (render c t).
+Proof.
+  intros c t buf len R HL NF H.
+  destruct (to_text_correct c t R HL) as (rest & E & _).
+  rewrite E in H. injection H as <- <-.
+  split; [apply cstring_prefix; exact NF|reflexivity].
 Qed.
